@@ -197,34 +197,22 @@ class Ref:
 
     # ---- 3D curvature of gamma and BSSN variables ---------------------------
     def spatial(self):
-        if 'sp' in self._c:
-            return self._c['sp']
-        g = self.gamma
-        G = values(g)
-        dG = grads(g)[1:]                       # (3,3,3,S) d_k g_ij
-        ddG = hessians(g)[1:, 1:]               # (3,3,3,3,S)
-        mv = np.moveaxis
-        Gi = mv(np.linalg.inv(mv(mv(G, 0, -1), 0, -1)), (-2, -1), (0, 1))
-        dGi = -np.einsum('mp...,apq...,qn...->amn...', Gi, dG, Gi)
-        Gl = 0.5 * (np.einsum('mln...->lmn...', dG)
-                    + np.einsum('nlm...->lmn...', dG) - dG)
-        dGl = 0.5 * (np.einsum('rmln...->rlmn...', ddG)
-                     + np.einsum('rnlm...->rlmn...', ddG) - ddG)
-        Gam = np.einsum('al...,lmn...->amn...', Gi, Gl)
-        dGam = (np.einsum('ral...,lmn...->ramn...', dGi, Gl)
-                + np.einsum('al...,rlmn...->ramn...', Gi, dGl))
-        Riem = (np.einsum('manb...->abmn...', dGam)
-                - np.einsum('namb...->abmn...', dGam)
-                + np.einsum('aml...,lnb...->abmn...', Gam, Gam)
-                - np.einsum('anl...,lmb...->abmn...', Gam, Gam))
-        Rdown = np.einsum('ai...,ibmn...->abmn...', G, Riem)
-        Ric = np.einsum('abad...->bd...', Riem)
-        RS = np.einsum('bd...,bd...->...', Gi, Ric)
-        out = dict(gamma=G, gammaup=Gi, dgamma=dG, Gamma=Gam,
-                   Riemann_uddd=Riem, Riemann_down=Rdown, Ricci=Ric,
-                   RicciS=RS, det=np.linalg.det(mv(mv(G, 0, -1), 0, -1)))
-        self._c['sp'] = out
-        return out
+        if 'sp' not in self._c:
+            g = self.gamma
+            self._c['sp'] = curv3(values(g), grads(g)[1:],
+                                  hessians(g)[1:, 1:])
+        return self._c['sp']
+
+    def spatial_conformal(self):
+        """Connection and curvature of gamma~_ij = det(gamma)^(-1/3)
+        gamma_ij."""
+        if 'spc' not in self._c:
+            g = self.gamma
+            e4 = det3(g) ** (-1.0 / 3.0)
+            gt = [[g[i][j] * e4 for j in range(3)] for i in range(3)]
+            self._c['spc'] = curv3(values(gt), grads(gt)[1:],
+                                   hessians(gt)[1:, 1:])
+        return self._c['spc']
 
     def bssn(self):
         """phi, conformal metric, A~, Gamma~ as jets, and their exact d_t."""
@@ -274,6 +262,32 @@ class Ref:
         if with_T:
             d['Tdown4'] = c['Tdown4']
         return d
+
+
+def curv3(G, dG, ddG):
+    """3D connection and curvature from a metric and its exact first and
+    second derivatives: G (3,3,S), dG[k] = d_k g_ij (3,3,3,S), ddG
+    (3,3,3,3,S)."""
+    mv = np.moveaxis
+    Gi = mv(np.linalg.inv(mv(mv(G, 0, -1), 0, -1)), (-2, -1), (0, 1))
+    dGi = -np.einsum('mp...,apq...,qn...->amn...', Gi, dG, Gi)
+    Gl = 0.5 * (np.einsum('mln...->lmn...', dG)
+                + np.einsum('nlm...->lmn...', dG) - dG)
+    dGl = 0.5 * (np.einsum('rmln...->rlmn...', ddG)
+                 + np.einsum('rnlm...->rlmn...', ddG) - ddG)
+    Gam = np.einsum('al...,lmn...->amn...', Gi, Gl)
+    dGam = (np.einsum('ral...,lmn...->ramn...', dGi, Gl)
+            + np.einsum('al...,rlmn...->ramn...', Gi, dGl))
+    Riem = (np.einsum('manb...->abmn...', dGam)
+            - np.einsum('namb...->abmn...', dGam)
+            + np.einsum('aml...,lnb...->abmn...', Gam, Gam)
+            - np.einsum('anl...,lmb...->abmn...', Gam, Gam))
+    Rdown = np.einsum('ai...,ibmn...->abmn...', G, Riem)
+    Ric = np.einsum('abad...->bd...', Riem)
+    RS = np.einsum('bd...,bd...->...', Gi, Ric)
+    return dict(gamma=G, gammaup=Gi, dgamma=dG, Gamma=Gam, dGamma=dGam,
+                Riemann_uddd=Riem, Riemann_down=Rdown, Ricci=Ric,
+                RicciS=RS, det=np.linalg.det(mv(mv(G, 0, -1), 0, -1)))
 
 
 # ---- self tests ---------------------------------------------------------------
